@@ -69,7 +69,17 @@ def _kwshuffle(tree):
     return tree
 
 
-KINDS = {"unparse": lambda t: t, "rename": _rename, "pad": _pad, "kwshuffle": _kwshuffle}
+def _ifswap(tree):
+    """`if c: A else: B`  ->  `if not c: B else: A`  (plain if/else only, not elif chains)."""
+    for node in ast.walk(tree):
+        if isinstance(node, ast.If) and node.orelse and not (len(node.orelse) == 1 and isinstance(node.orelse[0], ast.If)):
+            t = node.test
+            node.test = t.operand if isinstance(t, ast.UnaryOp) and isinstance(t.op, ast.Not) else ast.UnaryOp(op=ast.Not(), operand=t)
+            node.body, node.orelse = node.orelse, node.body
+    return tree
+
+
+KINDS = {"unparse": lambda t: t, "rename": _rename, "pad": _pad, "kwshuffle": _kwshuffle, "ifswap": _ifswap}
 
 
 def make_twin(src: Path, dst: Path, kind: str) -> int:
